@@ -581,7 +581,7 @@ Proof.
     + cbn [merge_get]. rewrite E. exact IH.
 Qed.
 
-(* set_parent then _get_parent_location, for a branch named like its remote *)
+(* set_parent then _get_parent_location (any named branch) *)
 Theorem parent_roundtrip_guarded : forall ssh_reser rel name location cfg L branch ref v,
   name <> [] ->
   bzr_url_to_git_url location = Ok (L, branch, ref) ->
@@ -631,14 +631,15 @@ Proof.
   rewrite H2, H3. reflexivity.
 Qed.
 
-(* for a branch NOT named like its remote the parent's branch/ref is lost *)
-Theorem parent_roundtrip_refuted :
-  exists name remote location cfg',
-    set_parent (fun l => l) name location {| cfg_url := None; cfg_merge := [] |} = Ok cfg' /\
-    bzr_url_to_git_url location = Ok (asc "git://h/r", Some (asc "b"), None) /\
-    get_parent_location (fun l => l) remote cfg' = Ok (Some (asc "git://h/r")).
+(* a branch that is not called like its remote (the defect repaired in /repo: the merge
+   ref used to be looked up under branch.<remote>) *)
+Theorem parent_roundtrip_example :
+  exists cfg',
+    set_parent (fun l => l) (asc "foo") (asc "git://h/r,branch=b")
+               {| cfg_url := None; cfg_merge := [] |} = Ok cfg' /\
+    bzr_url_to_git_url (asc "git://h/r,branch=b") = Ok (asc "git://h/r", Some (asc "b"), None) /\
+    get_parent_location (fun l => l) (asc "foo") cfg' = Ok (Some (asc "git://h/r,branch=b")).
 Proof.
-  exists (asc "foo"), (asc "origin"), (asc "git://h/r,branch=b").
   exists {| cfg_url := Some (asc "git://h/r"); cfg_merge := [(asc "foo", asc "refs/heads/b")] |}.
   split; [vm_compute; reflexivity|]. split; vm_compute; reflexivity.
 Qed.
